@@ -903,3 +903,23 @@ M("c11-revert-F43-code-not-free", ["C11"], "break",
   [("sgramm.y", "	  for (j = 0; j < num; j++)\n	    if (arr[j].code == code)\n	      {\n		code++;\n		j = -1;\n	      }\n", "")], "implicit-code-free")
 M("c11-free-code-while-form-benign", ["C11"], "benign",
   [("sgramm.y", "	  for (j = 0; j < num; j++)\n	    if (arr[j].code == code)\n	      {\n		code++;\n		j = -1;\n	      }\n", "	  j = 0;\n	  while (j < num)\n	    if (arr[j].code != code)\n	      j++;\n	    else\n	      {\n		code++;\n		j = 0;\n	      }\n")])
+M("r4a-local-string-no-terminator", ["C12"], "break",
+  [("sgramm.y", "	  strncpy (str, prev->repr, sizeof (str));\n	  str[sizeof (str) - 1] = '\\0';", "	  strncpy (str, prev->repr, sizeof (str) - 1);")], "terminated")
+M("r4a-local-string-terminator-first-benign", ["C12"], "benign",
+  [("sgramm.y", "	  strncpy (str, prev->repr, sizeof (str));\n	  str[sizeof (str) - 1] = '\\0';", "	  str[sizeof (str) - 1] = '\\0';\n	  strncpy (str, prev->repr, sizeof (str) - 1);")])
+M("r24-prime-square-accepted", ["C19", "C16"], "break",
+  [("hashtab.c", "      if (i * i > number)\n	return number;", "      if (i * i >= number)\n	return number;")], "R24-prime")
+M("r24-prime-negated-form-benign", ["C19", "C16"], "benign",
+  [("hashtab.c", "      if (i * i > number)\n	return number;", "      if (!(i * i <= number))\n	return number;")])
+M("c10-strict-checks-every-symbol", ["C10"], "break",
+  [("yaep.c", "      for (i = 0; (symb = nonterm_get (i)) != NULL; i++)\n	{\n	  if (!symb->derivation_p)", "      for (i = 0; (symb = symb_get (i)) != NULL; i++)\n	{\n	  if (!symb->derivation_p)")], "YAEP_UNACCESSIBLE_NONTERM")
+M("r3g-flag-set-after-reading-tokens", ["C14", "C17"], "break",
+  [("yaep.c", "  tok_init ();\n  tok_init_p = TRUE;\n  read_toks ();", "  tok_init ();\n  read_toks ();\n  tok_init_p = TRUE;")], "R3g")
+M("r3g-counter-reset-between-benign", ["C14", "C17"], "benign",
+  [("yaep.c", "  n_goto_successes = 0;\n  tok_init ();\n  tok_init_p = TRUE;", "  tok_init ();\n  n_goto_successes = 0;\n  tok_init_p = TRUE;")])
+M("r14-entry-filled-after-second-lookup", ["C12", "C13"], "break",
+  [("yaep.c", "	  /* The same node can be mentioned several times and the same\n	     name is used by all nodes of a rule: remember what we have\n	     freed.  */\n	  *entry = (hash_table_entry_t) *node_ptr;\n	  if ((*node_ptr)->type == YAEP_NIL)", "	  if ((*node_ptr)->type == YAEP_NIL)"),
+   ("yaep.c", "		  entry\n		    = find_hash_table_entry (reserv_mem_tab,\n					     (*node_ptr)->val.anode.name, TRUE);\n		  if (*entry == NULL)\n		    {\n		      *entry\n			= (hash_table_entry_t) (*node_ptr)->val.anode.name;", "		  hash_table_entry_t *name_entry;\n\n		  name_entry\n		    = find_hash_table_entry (reserv_mem_tab,\n					     (*node_ptr)->val.anode.name, TRUE);\n		  if (*name_entry == NULL)\n		    {\n		      *name_entry\n			= (hash_table_entry_t) (*node_ptr)->val.anode.name;"),
+   ("yaep.c", "	      (*parse_free) (*node_ptr);\n	    }\n	}\n      VLO_DELETE (tnodes_vlo);", "	      (*parse_free) (*node_ptr);\n	    }\n	  *entry = (hash_table_entry_t) *node_ptr;\n	}\n      VLO_DELETE (tnodes_vlo);")], "R14-entry")
+M("r14-entry-second-variable-benign", ["C12", "C13"], "benign",
+  [("yaep.c", "		  entry\n		    = find_hash_table_entry (reserv_mem_tab,\n					     (*node_ptr)->val.anode.name, TRUE);\n		  if (*entry == NULL)\n		    {\n		      *entry\n			= (hash_table_entry_t) (*node_ptr)->val.anode.name;", "		  hash_table_entry_t *name_entry;\n\n		  name_entry\n		    = find_hash_table_entry (reserv_mem_tab,\n					     (*node_ptr)->val.anode.name, TRUE);\n		  if (*name_entry == NULL)\n		    {\n		      *name_entry\n			= (hash_table_entry_t) (*node_ptr)->val.anode.name;")])
